@@ -51,7 +51,7 @@ ASSUMPTIONS = [
     "outside the statement, recorded in counters and never flagged: zero-mass inputs, conditioning on a zero-mass event, & with "
     "zero common mass, whether a one-point distribution consumes generator draws, k>1 on a one-point distribution, "
     "TableDistribution.prob of a foreign tuple",
-    "softmax oracle: exp(s_i)/sum_j exp(s_j) with math.exp/math.fsum, unshifted (scores |s|<=3); shifts are dyadic so s+c is exact",
+    "softmax oracle: exp(s_i)/sum_j exp(s_j) with math.exp/math.fsum, unshifted (scores |s|<=20); shifts are dyadic so s+c is exact",
     "E2: ChoiceRandom enumerates the positive-weight answers of choices()/all answers of choice(); the stdlib generator itself is trusted",
     "a disagreement between ChoiceRandom(real_seed=s) and random.Random(s) on a distribution whose sampling passed every other "
     "clause is a harness error (exit 2), not a verdict",
@@ -100,6 +100,9 @@ def prob_vectors(tier):
         out.extend(lattice(n))
     for n in (1, 2, 3):
         out.extend(unnormalised(n, vals))
+    # totals next to 1 (a few parts per million off): still unnormalised inputs
+    out += [(F(1, 2), F(1, 2) + F(1, 250000)), (F(1, 4), F(3, 4) - F(3, 10 ** 6)), (F(1, 4), F(1, 4), F(1, 2) + F(1, 500000)),
+            (F(1) + F(1, 200000),)]
     return out
 
 
@@ -108,6 +111,8 @@ def score_vectors(tier):
     out = []
     for n in (1, 2, 3):
         out.extend(v for v in product(vals, repeat=n) if any(s != NEG_INF for s in v))
+    # one dominant score (the others' exponentials sum to ~1e-6 .. 1e-9 of it)
+    out += [(F(0), F(13)), (F(13), F(0)), (F(-20), F(0)), (F(0), F(-25, 2), F(1)), (F(13), F(0), F(0)), (F(0), F(14), NEG_INF)]
     return out
 
 
